@@ -479,6 +479,10 @@ func (db *MultiBucketBackend) PutObject(
 	objectFilePath := filepath.FromSlash(objectPath)
 	objectDir := filepath.Dir(objectFilePath)
 
+	if err := checkKeyConflict(db.bucketFs, bucketName, objectPath); err != nil {
+		return result, err
+	}
+
 	if objectDir != "." {
 		if err := db.bucketFs.MkdirAll(objectDir, db.dirMode); err != nil {
 			return result, err
